@@ -24,13 +24,15 @@ MANIFEST = {
             "the roles of the trees for every diff that describes the change, whatever its sibling order), C13_reverse_involutive_refuted "
             "/ _partial (reverse twice loses the default flag of duplicated parents in the diff tree but keeps the meaning), "
             "C13_merge_apply_refuted (witness: merging a none that turns leaves into defaults into a create leaves the created "
-            "non-presence containers explicit - finding merge-npcont-dflt, reproduced on libyang). Tie: the extracted models of "
+            "non-presence containers explicit - finding merge-npcont-dflt, reproduced on libyang), C13_merge_undo (for all well-formed "
+            "A,B over a schema without user-ordered lists merging diff(B,A) into diff(A,B) gives the EMPTY diff, both merge options) "
+            "and its corollary C13_merge_apply_partial (the composition law for C = A). Tie: the extracted models of "
             "lyd_diff_reverse_all and lyd_diff_merge_all (whole merge table, redundancy removal, both merge options) must print the same "
             "reversed / merged diff trees and the same patched trees as libyang on generated triples built to hit every cell (T2 "
             "dtree-C13); the laws are also judged on the implementation by dump equality (difftree-laws-C13).",
     "note": "Modelled C: lyd_diff_reverse_all restricted to one user-ordered leaf-list. Tree level (slice difftree): lyd_diff_reverse_all (incl. lyd_diff_reverse_value/_default, "
             "the ignored error of lyd_diff_reverse_remove_op_r), lyd_diff_merge_r with lyd_diff_merge_none/_replace/_create/_delete, "
-            "lyd_diff_is_redundant and the default-flag walks in the diff tree. The composition law (merge_apply) and merge_undo have no "
-            "general proof: the former is refuted as stated, both are tied by T2 + the dump-level oracle only.",
+            "lyd_diff_is_redundant and the default-flag walks in the diff tree. The composition law (merge_apply) for arbitrary C has no proof: it is "
+            "refuted as stated (default flag of created non-presence containers) and otherwise tied by T2 + the dump-level oracle only.",
     "technique": "Coq proof/refutation on list-level model + differential correspondence + API metamorphic oracle",
 }
